@@ -1,17 +1,629 @@
 // C16: lazy index headers stay correct under concurrent idle unloading.
+//
+// Two kinds of cases run against the real LazyBinaryReader / ReaderPool:
+//
+//	seq   one goroutine runs a sequence of Reader-method calls, Close /
+//	      unloadIfIdleSince(ts), isIdleSince(ts) and sweeps; after every
+//	      operation the result class, loaded / failed flags, usedAt and the four
+//	      metric counters are recorded. Model/C16.v replays the same operations
+//	      through the transition system's step function (corr_ok).
+//	conc  many goroutines run lookups while others Close / unload / sweep (or a
+//	      real ReaderPool sweeps in the background); every lookup result is
+//	      compared with an always-loaded BinaryReader; recorded are the numbers
+//	      of results per class and the final counters (checked against the
+//	      counter invariant proved for the transition system).
 package main
 
 import (
+	"context"
 	"encoding/json"
+	"fmt"
+	"math"
 	"math/rand"
+	"os"
+	"path/filepath"
+	"reflect"
+	"runtime"
+	"runtime/debug"
+	"sync"
+	"time"
 
+	"github.com/go-kit/log"
+	"github.com/oklog/ulid/v2"
+	"github.com/prometheus/client_golang/prometheus"
+	"github.com/prometheus/prometheus/model/labels"
+	"github.com/thanos-io/objstore"
+	"github.com/thanos-io/objstore/providers/filesystem"
+
+	"github.com/thanos-io/thanos/pkg/block"
+	"github.com/thanos-io/thanos/pkg/block/indexheader"
+	"github.com/thanos-io/thanos/pkg/block/metadata"
+	"github.com/thanos-io/thanos/pkg/testutil/e2eutil"
 	"github.com/thanos-io/thanos/zzverif/common"
 )
 
-func run(raw json.RawMessage) (common.Case, error) { return common.Case{}, nil }
+// ---- inputs --------------------------------------------------------------
 
-func gen(r *rand.Rand, tier string, n int) []any { return nil }
+type sop struct {
+	Kind   string `json:"kind"`    // lookup | unload | idle | sweep
+	Method int    `json:"method"`  // lookup: which Reader method
+	Arg    int    `json:"arg"`     // lookup: argument selector
+	TsMode string `json:"ts_mode"` // abs | rel (relative to the current usedAt)
+	Ts     int64  `json:"ts"`      // unload / idle / sweep
+}
+
+type input struct {
+	Kind     string `json:"kind"` // seq | conc
+	FailLoad bool   `json:"fail_load,omitempty"`
+	Ops      []sop  `json:"ops,omitempty"`
+	// conc
+	Lookers     int   `json:"lookers,omitempty"`
+	LookupsEach int   `json:"lookups_each,omitempty"`
+	Closers     int   `json:"closers,omitempty"`
+	ClosesEach  int   `json:"closes_each,omitempty"`
+	CloseMode   int   `json:"close_mode,omitempty"` // 0 Close(); 1 unloadIfIdleSince(now); 2 mixed incl. never-idle ts; 3 sweep (isIdleSince+unload)
+	Pool        bool  `json:"pool,omitempty"`
+	IdleUs      int   `json:"idle_us,omitempty"` // pool idle timeout (microseconds)
+	Seed        int64 `json:"seed,omitempty"`
+	Pause       int   `json:"pause,omitempty"` // 0..3: how often goroutines yield / sleep
+}
+
+// ---- fixture: one block, its index-header, an always-loaded reader ---------
+
+type fixture struct {
+	dir    string // <tmp>/data
+	bkt    objstore.Bucket
+	id     ulid.ULID
+	always *indexheader.BinaryReader
+	names  []string
+	values map[string][]string
+	nsym   int
+	// a directory / bucket in which loading must fail
+	emptyDir string
+	emptyBkt objstore.Bucket
+}
+
+var (
+	fxOnce sync.Once
+	fx     *fixture
+	fxErr  error
+)
+
+func getFixture() (*fixture, error) {
+	fxOnce.Do(func() {
+		ctx := context.Background()
+		tmp, err := os.MkdirTemp("", "verif-c16-")
+		if err != nil {
+			fxErr = err
+			return
+		}
+		f := &fixture{dir: filepath.Join(tmp, "data"), values: map[string][]string{}}
+		if fxErr = os.MkdirAll(f.dir, 0o755); fxErr != nil {
+			return
+		}
+		f.bkt, fxErr = filesystem.NewBucket(filepath.Join(tmp, "bkt"))
+		if fxErr != nil {
+			return
+		}
+		var series []labels.Labels
+		for i := 0; i < 60; i++ {
+			series = append(series, labels.FromStrings(
+				"a", fmt.Sprintf("v%02d", i%13), "b", fmt.Sprintf("w%d", i%7), "job", "j", "n", fmt.Sprintf("%03d", i)))
+		}
+		f.id, fxErr = e2eutil.CreateBlock(ctx, f.dir, series, 20, 0, 1000, labels.FromStrings("ext", "1"), 0, metadata.NoneFunc, nil)
+		if fxErr != nil {
+			return
+		}
+		if fxErr = block.Upload(ctx, log.NewNopLogger(), f.bkt, filepath.Join(f.dir, f.id.String()), metadata.NoneFunc); fxErr != nil {
+			return
+		}
+		f.always, fxErr = indexheader.NewBinaryReader(ctx, log.NewNopLogger(), f.bkt, f.dir, f.id, 3, indexheader.NewBinaryReaderMetrics(nil))
+		if fxErr != nil {
+			return
+		}
+		f.names, fxErr = f.always.LabelNames()
+		if fxErr != nil {
+			return
+		}
+		for _, n := range f.names {
+			vs, err := f.always.LabelValues(n)
+			if err != nil {
+				fxErr = err
+				return
+			}
+			f.values[n] = vs
+		}
+		for o := uint32(0); o < 4096; o++ {
+			if _, err := f.always.LookupSymbol(ctx, o); err != nil {
+				break
+			}
+			f.nsym++
+		}
+		f.emptyDir = filepath.Join(tmp, "empty")
+		if fxErr = os.MkdirAll(f.emptyDir, 0o755); fxErr != nil {
+			return
+		}
+		f.emptyBkt, fxErr = filesystem.NewBucket(filepath.Join(tmp, "emptybkt"))
+		fx = f
+	})
+	return fx, fxErr
+}
+
+// ---- one lookup, on any Reader ------------------------------------------
+
+const nMethods = 6
+
+var (
+	panicMu   sync.Mutex
+	lastPanic string
+)
+
+type answer struct {
+	Val any
+	Err string
+}
+
+func (f *fixture) name(arg int) string {
+	k := arg % (len(f.names) + 1)
+	if k == len(f.names) {
+		return "missing"
+	}
+	return f.names[k]
+}
+
+func (f *fixture) value(name string, arg int) string {
+	vs := f.values[name]
+	k := (arg / 7) % (len(vs) + 1)
+	if k >= len(vs) {
+		return "nope"
+	}
+	return vs[k]
+}
+
+func (f *fixture) call(r indexheader.Reader, method, arg int) (a answer, err error) {
+	ctx := context.Background()
+	var v any
+	switch method % nMethods {
+	case 0:
+		v, err = r.IndexVersion()
+	case 1:
+		n := f.name(arg)
+		v, err = r.PostingsOffset(n, f.value(n, arg))
+	case 2:
+		n := f.name(arg)
+		v, err = r.PostingsOffsets(n, f.value(n, arg), f.value(n, arg+7), f.value(n, arg+21))
+	case 3:
+		v, err = r.LookupSymbol(ctx, uint32(arg%(f.nsym+2)))
+	case 4:
+		v, err = r.LabelValues(f.name(arg))
+	case 5:
+		v, err = r.LabelNames()
+	}
+	a.Val = v
+	if err != nil {
+		a.Err = err.Error()
+	}
+	return a, err
+}
+
+// classify a lookup on the lazy reader against the always-loaded reader.
+func (f *fixture) lookup(r indexheader.Reader, method, arg int, failLoad bool) (class string) {
+	defer func() {
+		if p := recover(); p != nil {
+			class = "KPanic"
+			panicMu.Lock()
+			if lastPanic == "" {
+				lastPanic = fmt.Sprintf("method %d arg %d: %v\n%s", method, arg, p, debug.Stack())
+			}
+			panicMu.Unlock()
+		}
+	}()
+	got, err := f.call(r, method, arg)
+	if indexheader.VerifC16ErrClass(err) == "unloaded" {
+		return "KUnloaded"
+	}
+	if failLoad {
+		if err != nil {
+			return "KLoadErr"
+		}
+		return "KDiff"
+	}
+	want, _ := f.call(f.always, method, arg)
+	if got.Err == want.Err && (got.Err != "" || reflect.DeepEqual(got.Val, want.Val)) {
+		return "KOk"
+	}
+	if err != nil && want.Err == "" {
+		return "KOther"
+	}
+	return "KDiff"
+}
+
+func unloadClass(err error) string {
+	switch indexheader.VerifC16ErrClass(err) {
+	case "nil":
+		return "KNil"
+	case "notidle":
+		return "KNotIdle"
+	}
+	return "KOther"
+}
+
+// ---- metrics -------------------------------------------------------------
+
+type counters struct{ loads, loadfails, unloads, unloadfails uint64 }
+
+func readCounters(reg *prometheus.Registry) counters {
+	var c counters
+	mfs, _ := reg.Gather()
+	for _, mf := range mfs {
+		if len(mf.Metric) == 0 || mf.Metric[0].Counter == nil {
+			continue
+		}
+		v := uint64(mf.Metric[0].Counter.GetValue())
+		switch mf.GetName() {
+		case "indexheader_lazy_load_total":
+			c.loads = v
+		case "indexheader_lazy_load_failed_total":
+			c.loadfails = v
+		case "indexheader_lazy_unload_total":
+			c.unloads = v
+		case "indexheader_lazy_unload_failed_total":
+			c.unloadfails = v
+		}
+	}
+	return c
+}
+
+func (f *fixture) newLazy(failLoad bool, reg *prometheus.Registry) (*indexheader.LazyBinaryReader, error) {
+	ctx := context.Background()
+	if failLoad {
+		// nothing on disk, nothing in the bucket, lazy download: construction
+		// succeeds and every load fails.
+		return indexheader.NewLazyBinaryReader(ctx, log.NewNopLogger(), f.emptyBkt, f.emptyDir, ulid.MustNew(1, nil), 3,
+			indexheader.NewLazyBinaryReaderMetrics(reg), indexheader.NewBinaryReaderMetrics(nil), nil, true)
+	}
+	return indexheader.NewLazyBinaryReader(ctx, log.NewNopLogger(), f.bkt, f.dir, f.id, 3,
+		indexheader.NewLazyBinaryReaderMetrics(reg), indexheader.NewBinaryReaderMetrics(nil), nil, false)
+}
+
+// ---- sequential cases ------------------------------------------------------
+
+type seqObs struct {
+	Op     string `json:"op"`
+	Ts     int64  `json:"ts,omitempty"`
+	Res    string `json:"res"`
+	Loaded bool   `json:"loaded"`
+	Failed bool   `json:"failed"`
+	Loads  uint64 `json:"loads"`
+	Unl    uint64 `json:"unloads"`
+}
+
+func runSeq(f *fixture, in input) (common.Case, error) {
+	c := common.Case{Class: "seq"}
+	if in.FailLoad {
+		c.Class = "seq-failload"
+	}
+	reg := prometheus.NewRegistry()
+	r, err := f.newLazy(in.FailLoad, reg)
+	if err != nil {
+		return c, err
+	}
+	defer r.Close()
+	u0 := indexheader.VerifC16UsedAt(r)
+	var terms []string
+	var obs []seqObs
+	notIdle, reloads := 0, 0
+	for _, o := range in.Ops {
+		ts := o.Ts
+		if o.TsMode == "rel" {
+			ts = indexheader.VerifC16UsedAt(r) + o.Ts
+		}
+		var opTerm, res string
+		switch o.Kind {
+		case "lookup":
+			res = f.lookup(r, o.Method, o.Arg, in.FailLoad)
+			opTerm = "OLookup"
+		case "unload":
+			if o.TsMode == "abs" && ts == 0 {
+				res = unloadClass(r.Close())
+			} else {
+				res = unloadClass(indexheader.VerifC16UnloadIfIdleSince(r, ts))
+			}
+			opTerm = common.App("OUnload", common.Z(ts))
+		case "idle":
+			if indexheader.VerifC16IsIdleSince(r, ts) {
+				res = "KTrue"
+			} else {
+				res = "KFalse"
+			}
+			opTerm = common.App("OIsIdle", common.Z(ts))
+		case "sweep":
+			// the body of ReaderPool.closeIdleReaders for this one reader
+			if indexheader.VerifC16IsIdleSince(r, ts) {
+				res = unloadClass(indexheader.VerifC16UnloadIfIdleSince(r, ts))
+			} else {
+				res = "KFalse"
+			}
+			opTerm = common.App("OSweep", common.Z(ts))
+		default:
+			return c, fmt.Errorf("bad op kind %q", o.Kind)
+		}
+		loaded, failed := indexheader.VerifC16Loaded(r)
+		used := indexheader.VerifC16UsedAt(r)
+		cs := readCounters(reg)
+		terms = append(terms, common.Tuple(opTerm, common.Z(used),
+			common.App("mkO", res, common.Bool(loaded), common.Bool(failed), common.Z(used),
+				common.N(cs.loads), common.N(cs.loadfails), common.N(cs.unloads), common.N(cs.unloadfails))))
+		obs = append(obs, seqObs{Op: o.Kind, Ts: ts, Res: res, Loaded: loaded, Failed: failed, Loads: cs.loads, Unl: cs.unloads})
+		if res == "KNotIdle" {
+			notIdle++
+		}
+		if cs.loads >= 2 {
+			reloads = 1
+		}
+		if o.Kind == "lookup" && res != "KOk" && res != "KLoadErr" && res != "KUnloaded" {
+			c.GoPred = fmt.Sprintf("sequential lookup (method %d arg %d) answered %s", o.Method, o.Arg, res)
+			c.Sig = "seq-lookup-" + res
+		}
+	}
+	c.Coq = common.App("CSeq", common.Z(u0), common.Bool(!in.FailLoad), common.List(terms))
+	c.Obs = obs
+	c.Nontrivial = reloads > 0 || notIdle > 0 || in.FailLoad && len(in.Ops) > 1
+	return c, nil
+}
+
+// ---- concurrent cases --------------------------------------------------------
+
+type concObs struct {
+	Panic    string         `json:"panic,omitempty"`
+	Lookups  map[string]int `json:"lookups"`
+	Unloads  map[string]int `json:"unloads"`
+	Counters [4]uint64      `json:"counters"`
+	Loaded   bool           `json:"loaded"`
+}
+
+func pause(rng *rand.Rand, level int) {
+	if level == 0 {
+		return
+	}
+	if level > 3 {
+		level = 3
+	}
+	switch k := rng.Intn(8 * (4 - level)); {
+	case k == 0:
+		time.Sleep(time.Duration(rng.Intn(300)) * time.Microsecond)
+	case k < 3:
+		runtime.Gosched()
+	}
+}
+
+func runConc(f *fixture, in input) (common.Case, error) {
+	c := common.Case{Class: "conc"}
+	ctx := context.Background()
+	reg := prometheus.NewRegistry()
+	var r *indexheader.LazyBinaryReader
+	var pool *indexheader.ReaderPool
+	if in.Pool {
+		c.Class = "conc-pool"
+		idle := time.Duration(in.IdleUs) * time.Microsecond
+		if idle < 100*time.Microsecond {
+			idle = 100 * time.Microsecond
+		}
+		pool = indexheader.NewReaderPool(log.NewNopLogger(), true, idle, indexheader.NewReaderPoolMetrics(reg), indexheader.AlwaysEagerDownloadIndexHeader)
+		rr, err := pool.NewBinaryReader(ctx, log.NewNopLogger(), f.bkt, f.dir, f.id, 3, nil)
+		if err != nil {
+			return c, err
+		}
+		r = rr.(*indexheader.LazyBinaryReader)
+	} else {
+		var err error
+		if r, err = f.newLazy(false, reg); err != nil {
+			return c, err
+		}
+	}
+	var mu sync.Mutex
+	lk := map[string]int{}
+	ul := map[string]int{}
+	var wg sync.WaitGroup
+	start := make(chan struct{})
+	for g := 0; g < in.Lookers; g++ {
+		wg.Add(1)
+		go func(g int) {
+			defer wg.Done()
+			debug.SetPanicOnFault(true)
+			rng := rand.New(rand.NewSource(in.Seed*1000 + int64(g)))
+			local := map[string]int{}
+			<-start
+			for i := 0; i < in.LookupsEach; i++ {
+				local[f.lookup(r, rng.Intn(nMethods), rng.Intn(1000), false)]++
+				pause(rng, in.Pause)
+			}
+			mu.Lock()
+			for k, v := range local {
+				lk[k] += v
+			}
+			mu.Unlock()
+		}(g)
+	}
+	for g := 0; g < in.Closers; g++ {
+		wg.Add(1)
+		go func(g int) {
+			defer wg.Done()
+			rng := rand.New(rand.NewSource(in.Seed*1000 + 500 + int64(g)))
+			local := map[string]int{}
+			<-start
+			for i := 0; i < in.ClosesEach; i++ {
+				mode := in.CloseMode
+				if mode == 2 {
+					mode = rng.Intn(5)
+				}
+				switch mode {
+				case 0:
+					local[unloadClass(indexheader.VerifC16UnloadIfIdleSince(r, 0))]++
+				case 1:
+					local[unloadClass(indexheader.VerifC16UnloadIfIdleSince(r, time.Now().UnixNano()))]++
+				case 3:
+					ts := time.Now().UnixNano()
+					if pool != nil {
+						indexheader.VerifC16CloseIdleReaders(pool)
+					} else if indexheader.VerifC16IsIdleSince(r, ts) {
+						local[unloadClass(indexheader.VerifC16UnloadIfIdleSince(r, ts))]++
+					}
+				default:
+					local[unloadClass(indexheader.VerifC16UnloadIfIdleSince(r, 1))]++ // never idle
+				}
+				pause(rng, in.Pause+1)
+			}
+			mu.Lock()
+			for k, v := range local {
+				ul[k] += v
+			}
+			mu.Unlock()
+		}(g)
+	}
+	close(start)
+	wg.Wait()
+	if pool != nil {
+		pool.Close()
+		// let an in-flight background sweep finish before reading the final state
+		time.Sleep(2 * time.Millisecond)
+	}
+	loaded, _ := indexheader.VerifC16Loaded(r)
+	cs := readCounters(reg)
+	// final clean-up (not part of the observation)
+	_ = indexheader.VerifC16UnloadIfIdleSince(r, 0)
+
+	total := uint64(in.Lookers * in.LookupsEach)
+	n := func(m map[string]int, k string) string { return common.N(uint64(m[k])) }
+	otherL := 0
+	for k, v := range lk {
+		switch k {
+		case "KOk", "KDiff", "KLoadErr", "KUnloaded", "KPanic":
+		default:
+			otherL += v
+		}
+	}
+	c.Coq = common.App("CConc", common.N(total),
+		n(lk, "KOk"), n(lk, "KDiff"), n(lk, "KLoadErr"), n(lk, "KUnloaded"), n(lk, "KPanic"), common.N(uint64(otherL)),
+		n(ul, "KNil"), n(ul, "KNotIdle"), n(ul, "KOther"),
+		common.N(cs.loads), common.N(cs.loadfails), common.N(cs.unloads), common.N(cs.unloadfails), common.Bool(loaded))
+	panicMu.Lock()
+	pmsg := lastPanic
+	lastPanic = ""
+	panicMu.Unlock()
+	c.Obs = concObs{Panic: pmsg, Lookups: lk, Unloads: ul, Counters: [4]uint64{cs.loads, cs.loadfails, cs.unloads, cs.unloadfails}, Loaded: loaded}
+	c.Nontrivial = cs.loads >= 2 && cs.unloads >= 1
+	switch {
+	case lk["KPanic"] > 0:
+		c.GoPred = fmt.Sprintf("%d concurrent lookup(s) panicked (nil or unmapped index-header)", lk["KPanic"])
+		c.Sig = "conc-lookup-panic"
+	case lk["KDiff"] > 0:
+		c.GoPred = fmt.Sprintf("%d concurrent lookup(s) answered differently from the always-loaded reader", lk["KDiff"])
+		c.Sig = "conc-lookup-diff"
+	case otherL > 0 || lk["KLoadErr"] > 0:
+		c.GoPred = fmt.Sprintf("%d concurrent lookup(s) failed with an undeclared error", otherL+lk["KLoadErr"])
+		c.Sig = "conc-lookup-error"
+	case ul["KOther"] > 0:
+		c.GoPred = "an unload returned an undeclared error"
+		c.Sig = "conc-unload-error"
+	}
+	return c, nil
+}
+
+func run(raw json.RawMessage) (common.Case, error) {
+	var in input
+	if err := json.Unmarshal(raw, &in); err != nil {
+		return common.Case{}, err
+	}
+	f, err := getFixture()
+	if err != nil {
+		return common.Case{}, fmt.Errorf("fixture: %w", err)
+	}
+	switch in.Kind {
+	case "seq":
+		return runSeq(f, in)
+	case "conc":
+		if in.Lookers > 64 || in.Closers > 64 || in.LookupsEach > 5000 || in.ClosesEach > 5000 {
+			return common.Case{}, fmt.Errorf("case too large")
+		}
+		return runConc(f, in)
+	}
+	return common.Case{}, fmt.Errorf("bad kind %q", in.Kind)
+}
+
+// ---- generators ----------------------------------------------------------------
+
+func genSeq(r *rand.Rand, maxOps int) input {
+	in := input{Kind: "seq", FailLoad: r.Intn(8) == 0}
+	n := 1 + r.Intn(maxOps)
+	for i := 0; i < n; i++ {
+		var o sop
+		switch k := r.Intn(10); {
+		case k < 4:
+			o = sop{Kind: "lookup", Method: r.Intn(nMethods), Arg: r.Intn(1000)}
+		case k < 7:
+			o = sop{Kind: "unload"}
+		case k < 8:
+			o = sop{Kind: "idle"}
+		default:
+			o = sop{Kind: "sweep"}
+		}
+		if o.Kind != "lookup" {
+			switch r.Intn(6) {
+			case 0:
+				o.TsMode, o.Ts = "abs", 0 // Close()
+			case 1:
+				o.TsMode, o.Ts = "abs", common.Pick(r, int64(1), -1, -5, math.MaxInt64, math.MinInt64, 1000)
+			default:
+				// around the boundary usedAt > ts
+				o.TsMode, o.Ts = "rel", common.Pick(r, int64(-1), 0, 1, -1000000000, 1000000000, 0, -1, 1)
+			}
+		}
+		in.Ops = append(in.Ops, o)
+	}
+	return in
+}
+
+func genConc(r *rand.Rand, tier string) input {
+	in := input{Kind: "conc", Seed: r.Int63n(1 << 40)}
+	scale := 1
+	if tier == "thorough" {
+		scale = 3
+	}
+	in.Lookers = 1 + r.Intn(8)
+	in.LookupsEach = (5 + r.Intn(40)) * scale
+	in.Closers = 1 + r.Intn(3)
+	in.ClosesEach = (3 + r.Intn(30)) * scale
+	in.CloseMode = common.Pick(r, 0, 0, 1, 2, 3)
+	in.Pause = common.Pick(r, 0, 0, 1, 2, 3)
+	if r.Intn(4) == 0 {
+		in.Pool = true
+		in.IdleUs = common.Pick(r, 100, 300, 1000, 3000)
+		in.CloseMode = common.Pick(r, 0, 3, 3)
+		in.Pause = 1 + r.Intn(3)
+	}
+	return in
+}
+
+func gen(r *rand.Rand, tier string, n int) []any {
+	var out []any
+	maxOps := 12
+	if tier == "thorough" {
+		maxOps = 40
+	}
+	for i := 0; i < n; i++ {
+		if r.Intn(5) < 3 {
+			out = append(out, genSeq(r, maxOps))
+		} else {
+			out = append(out, genConc(r, tier))
+		}
+	}
+	return out
+}
 
 func main() {
-	common.Main(common.Prop{ID: "C16", Facts: facts, Gen: gen, Run: run, QuickN: 300, ThoroughN: 3000})
+	common.Main(common.Prop{ID: "C16", Facts: facts, Gen: gen, Run: run, QuickN: 400, ThoroughN: 4000})
+	if fx != nil {
+		os.RemoveAll(filepath.Dir(fx.dir))
+	}
 }
